@@ -13,10 +13,12 @@
    blocks a block needs are listed in its marker). The first block is the preamble. *)
 (* == block preamble == *)
 From Coq Require Import List NArith ZArith Bool Lia.
+From Coq Require Strings.String.
 From NextestModel Require Import Base.Tac.
 From NextestModel Require gen.GenDecisions.
 From NextestModel Require Model.Result Model.Dispatcher Model.Junit Model.UnitTimers Model.Filter Model.FilterFull.
 From NextestModel Require Model.Backoff Model.CliRun Proofs.CliRun.
+From NextestModel Require Model.AttemptDecision Proofs.AttemptDecision.
 Import ListNotations.
 Open Scope N_scope.
 
@@ -30,6 +32,8 @@ Module MFl := NextestModel.Model.Filter.
 Module MB := NextestModel.Model.Backoff.
 Module MC := NextestModel.Model.CliRun.
 Module PC := NextestModel.Proofs.CliRun.
+Module MA := NextestModel.Model.AttemptDecision.
+Module PA := NextestModel.Proofs.AttemptDecision.
 
 (* boolean comparisons in hypotheses -> propositions lia understands *)
 Ltac b2p :=
@@ -574,3 +578,87 @@ Lemma gen_command_exit_is_model :
     process_exit (entry_gen_exit e (G.exec_run_exit s p)) =
     MC.entry_exit e (MR.summarize_final (stats_to_model s)) (policy_to_model p).
 Proof. bridge. Qed.
+
+(* ---------------------------------------------------------------- the decision after each attempt *)
+(* == block after_attempt (needs conv_result) == *)
+(* what a branch of the `if` chain at the end of run_test_instance's loop body amounts to: leaving the loop
+   (Finished is sent after it) or going round again having sent AttemptFailedWillRetry; anything else is
+   not a decision the model knows *)
+Module SLa. Import Coq.Strings.String.
+  Definition attempt_failed_will_retry : string := "AttemptFailedWillRetry"%string.
+End SLa.
+Definition exit_to_model (x : G.LoopExit * list String.string) : option MA.after :=
+  match x with
+  | (G.LoopExit_Break, nil) => Some MA.AFinish
+  | (G.LoopExit_Continue, cons e nil) =>
+      if String.eqb e SLa.attempt_failed_will_retry then Some MA.ARetry else None
+  | _ => None
+  end.
+Lemma gen_after_attempt_is_model :
+  forall r attempt total,
+    exit_to_model (G.run_test_instance_after_attempt r (G.mk_RetryData attempt total)) =
+    Some (MA.after_attempt (MR.is_success (result_to_model r)) attempt total).
+Proof. bridge. Qed.
+
+(* == block attempt_loop (needs conv_result is_success after_attempt) == *)
+(* one iteration of the loop C07's theorems are about (Model/Backoff.v attempt_loop, instantiated with the
+   generated result type and the generated is_success) IS the generated decision *)
+Lemma gen_attempt_loop_step :
+  forall f attempt delay bs total outcome accept js,
+    MB.attempt_loop G.ExecutionResult G.ExecutionResult_is_success (S f) attempt delay bs total outcome accept js =
+    if (1 <? attempt) && negb (accept attempt) then (nil, MB.Refused)
+    else
+      let r := outcome attempt in
+      let rec := MB.Build_attempt_rec G.ExecutionResult attempt delay r in
+      match exit_to_model (G.run_test_instance_after_attempt r (G.mk_RetryData attempt total)) with
+      | Some MA.AFinish => (rec :: nil, MB.Finished)
+      | Some MA.ARetry =>
+          match MB.b_next (js attempt) bs with
+          | None => (rec :: nil, MB.Panicked)
+          | Some (d, bs') =>
+              let '(l, e) := MB.attempt_loop G.ExecutionResult G.ExecutionResult_is_success f (attempt + 1) d bs' total
+                               outcome accept js in
+              (rec :: l, e)
+          end
+      | None => (rec :: nil, MB.Panicked)
+      end.
+Proof.
+  intros. rewrite PA.attempt_loop_step. cbv zeta. rewrite gen_after_attempt_is_model.
+  rewrite <- gen_is_success_is_model. reflexivity.
+Qed.
+
+(* == block retry_policy (needs conv_cli) == *)
+(* `let retry_policy = self.force_retries.unwrap_or_else(|| settings.retries()); let total_attempts = retry_policy.count() + 1;` *)
+Lemma gen_retry_policy_is_model :
+  forall force own,
+    retry_policy_to_model (G.run_test_instance_retry_policy force own) =
+    MB.effective_policy (option_map retry_policy_to_model force) (retry_policy_to_model own).
+Proof. bridge. Qed.
+Lemma gen_total_attempts_is_model :
+  forall force own,
+    G.run_test_instance_total_attempts force own =
+    MB.p_count (MB.effective_policy (option_map retry_policy_to_model force) (retry_policy_to_model own)) + 1.
+Proof. bridge. Qed.
+
+Lemma gen_retry_policy_and_total :
+  forall force own,
+    retry_policy_to_model (G.run_test_instance_retry_policy force own) =
+    MB.effective_policy (option_map retry_policy_to_model force) (retry_policy_to_model own) /\
+    G.run_test_instance_total_attempts force own =
+    MB.p_count (MB.effective_policy (option_map retry_policy_to_model force) (retry_policy_to_model own)) + 1.
+Proof. intros. split; [apply gen_retry_policy_is_model | apply gen_total_attempts_is_model]. Qed.
+
+(* == block forced_retries (needs conv_cli runner_settings retry_policy) == *)
+(* C07 on the source text, end to end: `--retries n` on the command line makes every test run at most n + 1
+   attempts with the delay-free policy, whatever its own policy *)
+Lemma gen_forced_retries :
+  forall o cs b n own,
+    G.TestRunnerOpts_to_builder o cs = Some b ->
+    G.TestRunnerOpts_retries o = Some n ->
+    retry_policy_to_model (G.run_test_instance_retry_policy (G.build_force_retries b) own) = MB.new_without_delay n /\
+    G.run_test_instance_total_attempts (G.build_force_retries b) own = n + 1.
+Proof.
+  intros o cs b n own Hb Hn. revert Hb. destruct o as [nr tt rt ff nff mf nt]. cbn in Hn. subst rt.
+  bridge_norm. destruct nr; [discriminate|]. intro Hb. injection Hb as <-.
+  repeat (bridge_case; cbv beta iota); split; reflexivity.
+Qed.
